@@ -142,6 +142,13 @@ def sample_cases(ops, impl, k=4):
 def run_check(chk, tier, seed, replay=None):
     t0 = time.time()
     pid = chk.pid
+    replay_payload = None
+    if replay:
+        # a replay file records (seed, tier): every random choice derives from the seed, so re-running the
+        # check with them regenerates the failing case; we then report whether the same failure recurs
+        replay_payload = json.load(open(replay))
+        seed = str(replay_payload.get("seed", seed))
+        tier = replay_payload.get("tier", tier)
     os.makedirs(core.WORK, exist_ok=True)
     ctx = {"tier": tier, "seed": seed, "pid": pid}
     concrete = []      # failures with a concrete input on the implementation
@@ -253,13 +260,14 @@ def run_check(chk, tier, seed, replay=None):
         if nviol >= 3:
             nviol += 1
             continue
-        p = core.write_replay(pid, seed, nviol, {"property": pid, "kind": "concrete-failing-input", **c})
+        p = core.write_replay(pid, seed, nviol, {"property": pid, "kind": "concrete-failing-input",
+                                                "seed": int(seed), "tier": tier, **c})
         lines.append("VIOLATION property=%s replay=%s" % (pid, p))
         nviol += 1
     if broken and nviol == 0:
         # known findings never excuse a broken obligation / correspondence that yields no input
         p = core.write_replay(pid, seed, 0, {"property": pid, "kind": "no-failing-input-found",
-                                             "broken": broken[:20]})
+                                             "seed": int(seed), "tier": tier, "broken": broken[:20]})
         lines.append("VIOLATION property=%s replay=%s no-failing-input-found" % (pid, p))
         nviol += 1
 
@@ -281,6 +289,10 @@ def run_check(chk, tier, seed, replay=None):
     if "leanchecker" in po:
         coverage["leanchecker"] = po["leanchecker"]
     core.write_evidence(pid, tier, seed, wall, coverage, chk.assumptions, nviol)
+    if replay_payload is not None:
+        want = replay_payload.get("what") or ",".join(b.get("name", "") for b in replay_payload.get("broken", []))
+        same = [c for c in concrete if c.get("what") == replay_payload.get("what")] if replay_payload.get("what") else broken
+        print("REPLAY %s: %s (%s)" % (replay, "reproduced" if same else "not reproduced", want[:200]), flush=True)
     for l in lines:
         print(l, flush=True)
     print("[check] %s tier=%s seed=%s obligations=%d/%d evaluations=%d distinct=%d violations=%d wall=%.1fs"
